@@ -80,6 +80,10 @@ def _gen_panel(rng, tier, profile, stress=False, wide=False, nine=False):
     n_geos = rng.choice((3, 4, 5, 5, 6, 6, 7))
   else:
     n_geos = rng.choice((3, 4, 4, 5, 5))
+  if stress and not (wide or nine) and profile != 'c14' and n_geos < 6:
+    # room for one or two geos to be excluded AND the cap on the number of
+    # geos to bind on what is left
+    n_geos += rng.choice((0, 1, 1))
   style = rng.choice(('digits', 'digits', 'words', 'int'))
   if wide and style == 'words':
     style = 'digits'
@@ -200,7 +204,7 @@ def _gen_par(rng, panel, profile, stress=False):
   if stress:
     # several geo-level constraints binding at once
     n_geos = len(panel['geos'])
-    par['n_geos_max'] = max(2, n_geos - rng.choice((1, 1, 2)))
+    par['n_geos_max'] = max(2, n_geos - rng.choice((1, 1, 2, 2, 3)))
     if rng.random() < 0.6:
       par['budget_range'] = rng.choice(([0.0, tot * 0.05], [0.0, tot * 0.006],
                                         [0.0, tot * 0.0015],
@@ -230,7 +234,7 @@ def _picks(rng, n):
   return [rng.randrange(64) for _ in range(n)]
 
 
-def _gen_ops(rng, tier, profile, n_geos):
+def _gen_ops(rng, tier, profile, n_geos, stress=False):
   n_clients = rng.choice((1, 2, 2, 3))
   listing_heavy = False
   if profile == 'c14':
@@ -246,7 +250,16 @@ def _gen_ops(rng, tier, profile, n_geos):
     n_steps = rng.randrange(6, 17 if tier == 'quick' else 31)
     w = {'q': 30, 'dwc': 8, 'list_t': 6, 'list_c': 6, 'open': 10, 'step': 22,
          'close': 2, 'exhaustive': 5, 'greedy': 8, 'results': 14}
-    listing_heavy = rng.random() < 0.15
+    r_style = rng.random()
+    listing_heavy = r_style < 0.15
+    search_heavy = 0.15 <= r_style < 0.25
+    # (stacked geo-level constraints are where the constraint sets interact:
+    # there the sweep is three times as frequent)
+    sweep = 0.25 <= r_style < (0.61 if stress else 0.37)
+    if search_heavy:
+      # several searches of both kinds on one object, retrievals in between
+      w.update({'exhaustive': 16, 'greedy': 18, 'results': 18, 'q': 16,
+                'step': 8, 'open': 5})
     if listing_heavy:
       # listing-heavy: several listings in flight, stepped far, crossed by
       # other listings and searches
@@ -280,6 +293,8 @@ def _gen_ops(rng, tier, profile, n_geos):
         w['mutate_returned'] = 14
   p_interrupt = rng.choice((0.1, 0.2, 0.35)) if 'interrupt' in enabled else 0
   max_searches = 3 if profile != 'c14' else 4
+  if profile != 'c14' and search_heavy:
+    max_searches = 4
   ops = []
   open_lids = []
   next_lid = 0
@@ -396,6 +411,14 @@ def _gen_ops(rng, tier, profile, n_geos):
       else:
         op['interrupt'] = {'frac': round(rng.random(), 4) or 0.5, 'exc': exc}
     ops.append(op)
+  if profile != 'c14' and sweep:
+    # every constraint set / assignment / range / count asked once at the
+    # start and once more at the end, each time in another order
+    head = [{'op': 'q', 'c': rng.randrange(n_clients), 'name': q}
+            for q in rng.sample(QUERIES, len(QUERIES))]
+    tail = [{'op': 'q', 'c': rng.randrange(n_clients), 'name': q}
+            for q in rng.sample(QUERIES, len(QUERIES))]
+    ops = head + ops + tail
   if n_search == 0:
     pos = rng.randrange(0, max(1, len(ops) // 2) + 1)
     ops.insert(pos, {'op': rng.choice(('exhaustive', 'greedy', 'greedy')),
@@ -438,7 +461,8 @@ def generate(rng, tier, profile='faultfree'):
       a, b = b, a
     par[which] = a
     sibling_par = {which: b}
-  ops, enabled = _gen_ops(rng, tier, profile, len(panel['geos']))
+  ops, enabled = _gen_ops(rng, tier, profile, len(panel['geos']),
+                           stress=stress)
   if wide or nine:
     # both kinds of search on the one object, whatever else happens
     for kind in ('exhaustive', 'greedy'):
